@@ -9,9 +9,12 @@ import sys
 
 VERIF = os.path.dirname(os.path.dirname(os.path.abspath(__file__)))
 REPO = os.path.abspath(os.environ.get("VERIF_REPO", "/repo"))
-EVIDENCE = os.path.join(VERIF, "evidence")
-REPLAYS = os.path.join(VERIF, "replays")
 CACHE = os.path.join(VERIF, ".cache")
+# evidence/ and replays/ describe /repo only; runs against a scratch copy (VERIF_REPO, used for the detection
+# demonstrations) write under .cache/scratch so that committed evidence always comes from /repo itself
+_SCRATCH = os.path.realpath(REPO) != os.path.realpath("/repo")
+EVIDENCE = os.path.join(CACHE, "scratch", "evidence") if _SCRATCH else os.path.join(VERIF, "evidence")
+REPLAYS = os.path.join(CACHE, "scratch", "replays") if _SCRATCH else os.path.join(VERIF, "replays")
 KNOWN = os.path.join(VERIF, "known_findings.json")
 GUARD = "JTIOSUE_QUBOVERT_VERIF"
 
